@@ -18,6 +18,7 @@ import (
 	"runtime"
 	"strconv"
 	"strings"
+	"sync"
 )
 
 type input struct {
@@ -38,6 +39,7 @@ type state struct {
 	pos    int
 	loaded bool
 	failed []string
+	diverged string
 }
 
 var st state
@@ -58,45 +60,99 @@ func Load(path string) error {
 	return nil
 }
 
+// RunList replays every file named in listPath (one per line) and prints one
+// "VP-REPLAY-RESULT[<file>]: ..." line each (translator validation: the
+// witness inputs of passing harnesses must pass natively too).
+func RunList(listPath string, harnesses map[string]func()) {
+	data, err := os.ReadFile(listPath)
+	if err != nil {
+		fmt.Printf("VP-REPLAY-LIST-ERROR: %v\n", err)
+		return
+	}
+	for _, path := range strings.Split(strings.TrimSpace(string(data)), "\n") {
+		if path == "" {
+			continue
+		}
+		if err := Load(path); err != nil {
+			fmt.Printf("VP-REPLAY-RESULT[%s]: load-error %v\n", path, err)
+			continue
+		}
+		resultPrefix = "[" + path + "]"
+		for _, in := range st.rf.Inputs {
+			if in.Label == "numcpu" {
+				if n, err := strconv.Atoi(in.Value); err == nil && n > 0 {
+					runtime.GOMAXPROCS(n)
+				}
+			}
+		}
+		Run(harnesses)
+		resultPrefix = ""
+	}
+}
+
+var resultPrefix string
+
 // Run executes one harness natively and reports the outcome on stdout.
 func Run(harnesses map[string]func()) (ok bool) {
 	f := harnesses[st.rf.Harness]
 	if f == nil {
-		fmt.Printf("VP-REPLAY-RESULT: missing-harness %s\n", st.rf.Harness)
+		fmt.Printf("VP-REPLAY-RESULT%s: missing-harness %s\n", resultPrefix, st.rf.Harness)
 		return false
 	}
 	defer func() {
 		r := recover()
 		if a, isAbort := r.(abort); isAbort {
-			fmt.Printf("VP-REPLAY-RESULT: %s\n", a.why)
+			fmt.Printf("VP-REPLAY-RESULT%s: %s\n", resultPrefix, a.why)
 			ok = !strings.HasPrefix(a.why, "assert-failed")
 			return
 		}
 		if r != nil {
-			fmt.Printf("VP-REPLAY-RESULT: panic %v\n", r)
+			fmt.Printf("VP-REPLAY-RESULT%s: panic %v\n", resultPrefix, r)
 			ok = false
 			return
 		}
-		fmt.Printf("VP-REPLAY-RESULT: ok\n")
+		if st.diverged != "" {
+			fmt.Printf("VP-REPLAY-RESULT%s: %s\n", resultPrefix, st.diverged)
+			ok = true
+			return
+		}
+		fmt.Printf("VP-REPLAY-RESULT%s: ok\n", resultPrefix)
 		ok = true
 	}()
 	f()
 	return true
 }
 
+var nextMu sync.Mutex
+
+// next returns the next replayed input with the given label. Entries the
+// native run does not ask for (the engine evaluates both arms of small
+// conditionals, so its vector can contain answers to questions the native
+// short-circuit never asks) are skipped. A label that does not occur any more
+// marks the run as diverged; a zero value is handed out so that goroutines of
+// the code under test do not crash the process.
 func next(label, kindPrefix string) string {
+	nextMu.Lock()
+	defer nextMu.Unlock()
 	if !st.loaded {
 		panic(abort{"no-replay-loaded"})
 	}
-	if st.pos >= len(st.rf.Inputs) {
-		panic(abort{"diverged: replay vector exhausted at " + label})
+	for i := st.pos; i < len(st.rf.Inputs); i++ {
+		if st.rf.Inputs[i].Label == label {
+			st.pos = i + 1
+			return st.rf.Inputs[i].Value
+		}
 	}
-	in := st.rf.Inputs[st.pos]
-	st.pos++
-	if in.Label != label {
-		panic(abort{fmt.Sprintf("diverged: expected input %q, harness asked for %q", in.Label, label)})
+	if st.diverged == "" {
+		st.diverged = fmt.Sprintf("diverged: harness asked for %q, not in the remaining replay vector", label)
 	}
-	return in.Value
+	switch kindPrefix {
+	case "bool":
+		return "false"
+	case "f64", "f32":
+		return "0x0000000000000000"
+	}
+	return "0"
 }
 
 // Symbolic reports whether the harness runs under the symbolic engine.
@@ -256,6 +312,11 @@ func MemoInt(label string, args ...float64) int     { return int(parseI(next(lab
 // NondetMapOrder makes `range` over maps inside the named function explore
 // every iteration order (symbolic engine only).
 func NondetMapOrder(fn string) {}
+
+// ExploreSchedules: from here on the engine explores every interleaving of
+// the goroutines at synchronisation granularity and checks plain memory
+// accesses for data races (natively a no-op; races are confirmed with -race).
+func ExploreSchedules() {}
 
 // StepLimit declares that the code that follows must finish within n SSA
 // instructions (termination is part of the property).
